@@ -98,7 +98,7 @@ def main():
         for i in range(dim):
             for j in range(dim):
                 A[i, j] += rng.randint(-2, 2) / 8
-        if abs(np.linalg.det(A)) > 0.4:
+        if not (abs(np.linalg.det(A)) <= 0.4):
             M.affine(mesh, A, [0.25, -0.5, 0.125 if dim == 3 else 0.0])
         X = mesh.coord
         used = np.unique(np.concatenate([g.connect.ravel() for g in mesh.Get_list_groupElem(dim)]))
@@ -122,35 +122,35 @@ def main():
         sym, lmin, kdim, kr = analyse(K, nrig, R)
         ident = dict(ident0, sim="elastic", law=type(law).__name__, thickness=thick)
         res.case((et, "elastic-K"))
-        if sym > 1e-12:
+        if not (sym <= 1e-12):
             res.fail(f"K not symmetric elem={et}", f"|K - K^T| / |K| = {sym:.2e}", ident)
-        if lmin < -1e-10:
+        if not (lmin >= -1e-10):
             res.fail(f"K not PSD elem={et}", f"smallest eigenvalue / largest = {lmin:.2e}", ident)
-        if kr > 1e-10:
+        if not (kr <= 1e-10):
             res.fail(f"rigid motion not in kernel elem={et}", f"|K R| relative = {kr:.2e}", ident)
         if kdim != nrig:
             res.fail(f"kernel dimension elem={et} sim=elastic", f"K has {kdim} zero-energy modes on a connected mesh of {Ne} elements, expected {nrig} rigid motions", ident)
         # restrained problem is uniquely solvable
         fixed = np.where(np.isin(used, mesh.Nodes_Conditions(lambda x, y, z: np.isclose((np.c_[x, y, z] - [0.25, -0.5, 0.125 if dim == 3 else 0.0]) @ np.linalg.inv(A).T[:, 0], 0))))[0]
-        if len(fixed) >= dim:
+        if not (len(fixed) < dim):
             free = np.setdiff1d(np.arange(len(dofs)), (fixed[:, None] * dim + np.arange(dim)).ravel())
             wff = np.linalg.eigvalsh(K[np.ix_(free, free)])
             res.case((et, "elastic-Kff"))
-            if wff.min() < 1e-10 * wff.max():
+            if not (wff.min() >= 1e-10 * wff.max()):
                 res.fail(f"restrained K singular elem={et}", f"after clamping one side the smallest eigenvalue ratio is {wff.min() / wff.max():.2e}", ident)
         # mass
         measure = mesh.area if dim == 2 else mesh.volume
         symM = np.abs(Mm - Mm.T).max() / np.abs(Mm).max()
         wm = np.linalg.eigvalsh((Mm + Mm.T) / 2)
         res.case((et, "elastic-M"))
-        if symM > 1e-12:
+        if not (symM <= 1e-12):
             res.fail(f"M not symmetric elem={et}", f"|M - M^T| / |M| = {symM:.2e}", ident)
-        if wm.min() < 1e-11 * wm.max():
+        if not (wm.min() >= 1e-11 * wm.max()):
             res.fail(f"mass not PD elem={et}", f"consistent mass matrix: smallest eigenvalue / largest = {wm.min() / wm.max():.2e}", ident)
         for c in range(dim):
             tvec = np.zeros((len(used), dim)); tvec[:, c] = 1
             tot = tvec.ravel() @ Mm @ tvec.ravel()
-            if abs(tot - rho * measure * thick) > 1e-9 * rho * measure * thick:
+            if not (abs(tot - rho * measure * thick) <= 1e-9 * rho * measure * thick):
                 res.fail(f"mass total elem={et}", f"entries of M in direction {c} sum to {tot}, expected rho x measure x thickness = {rho * measure * thick}", ident)
                 break
         # the total follows a change of thickness, then of density, then of the coordinates
@@ -159,12 +159,12 @@ def main():
             law.thickness = thick * 2
             tot = tvec.ravel() @ dense(simu.Get_K_C_M_F()[2], dofs) @ tvec.ravel()
             res.case((et, "elastic-M-after-thickness"))
-            if abs(tot - 2 * rho * measure * thick) > 1e-9 * 2 * rho * measure * thick:
+            if not (abs(tot - 2 * rho * measure * thick) <= 1e-9 * 2 * rho * measure * thick):
                 res.fail(f"mass total after thickness change elem={et}", f"after thickness x2 the entries of M sum to {tot}, expected {2 * rho * measure * thick}", ident)
             simu.rho = rho * 3
             tot = tvec.ravel() @ dense(simu.Get_K_C_M_F()[2], dofs) @ tvec.ravel()
             res.case((et, "elastic-M-after-density"))
-            if abs(tot - 6 * rho * measure * thick) > 1e-9 * 6 * rho * measure * thick:
+            if not (abs(tot - 6 * rho * measure * thick) <= 1e-9 * 6 * rho * measure * thick):
                 res.fail(f"mass total after density change elem={et}", f"after thickness x2 and density x3 the entries of M sum to {tot}, expected {6 * rho * measure * thick}", ident)
             law.thickness = thick
             simu.rho = rho
@@ -177,15 +177,15 @@ def main():
         sym, lmin, kdim, kr = analyse(Kt, 1, np.ones((len(used), 1)))
         ident = dict(ident0, sim="thermal", thickness=thick)
         res.case((et, "thermal"))
-        if sym > 1e-12 or lmin < -1e-10 or kr > 1e-10:
+        if not (sym <= 1e-12) or not (lmin >= -1e-10) or not (kr <= 1e-10):
             res.fail(f"conductivity matrix elem={et}", f"symmetry {sym:.1e}, min eigenvalue ratio {lmin:.1e}, |K 1| {kr:.1e}", ident)
         if kdim != 1:
             res.fail(f"kernel dimension elem={et} sim=thermal", f"conductivity matrix has {kdim} zero modes, expected 1 (constants)", ident)
         wc = np.linalg.eigvalsh((Ct + Ct.T) / 2)
         tot = np.ones(len(used)) @ Ct @ np.ones(len(used))
-        if wc.min() < 1e-11 * wc.max():
+        if not (wc.min() >= 1e-11 * wc.max()):
             res.fail(f"capacity not PD elem={et}", f"smallest eigenvalue / largest = {wc.min() / wc.max():.2e}", ident)
-        if abs(tot - rho * c * measure * thick) > 1e-9 * abs(rho * c * measure * thick):
+        if not (abs(tot - rho * c * measure * thick) <= 1e-9 * abs(rho * c * measure * thick)):
             res.fail(f"capacity total elem={et}", f"entries sum to {tot}, expected rho c measure thickness = {rho * c * measure * thick}", ident)
         # ---------- correspondence on one element ----------
         if et in small or thorough and et in ("TRI10", "QUAD9", "TETRA10", "HEXA8", "PRISM6"):
@@ -244,12 +244,12 @@ def main():
         ident = dict(elemType=et, sim="thermal-1D", Ne=int(mesh.Ne))
         res.case((et, "thermal-1D"))
         res.count(f"elem:{et}")
-        if sym > 1e-12 or lmin < -1e-10 or kr > 1e-10:
+        if not (sym <= 1e-12) or not (lmin >= -1e-10) or not (kr <= 1e-10):
             res.fail(f"conductivity matrix elem={et}", f"symmetry {sym:.1e}, min eigenvalue ratio {lmin:.1e}, |K 1| {kr:.1e}", ident)
         if kdim != 1:
             res.fail(f"kernel dimension elem={et} sim=thermal", f"1D conductivity matrix has {kdim} zero modes, expected 1 (constants)", ident)
         wc = np.linalg.eigvalsh((Ct + Ct.T) / 2)
-        if wc.min() < 1e-11 * wc.max():
+        if not (wc.min() >= 1e-11 * wc.max()):
             res.fail(f"capacity not PD elem={et}", f"smallest eigenvalue / largest = {wc.min() / wc.max():.2e}", ident)
 
     # ---------------- beams ----------------
@@ -280,22 +280,22 @@ def main():
                 ident = dict(beam=et, timoshenko=timo, dim=bdim, start=list(start), direction=d.tolist(), Ne=int(mesh.Ne))
                 res.case(("beam", et, timo, bdim, start, tuple(d.tolist())))
                 res.count("beam")
-                if sym > 1e-12 or lmin < -1e-10:
+                if not (sym <= 1e-12) or not (lmin >= -1e-10):
                     res.fail(f"beam K not symmetric PSD timo={timo} dim={bdim}", f"symmetry {sym:.1e}, min eigenvalue ratio {lmin:.1e}", ident)
-                if kr > 1e-9:
+                if not (kr <= 1e-9):
                     res.fail(f"beam rigid motion not in kernel timo={timo} dim={bdim}", f"|K R| relative = {kr:.2e}", ident)
                 if kdim != nrig:
                     res.fail(f"beam kernel dimension timo={timo} dim={bdim} elem={et}", f"K has {kdim} zero-energy modes, expected {nrig}", ident)
                 symM = np.abs(Mm - Mm.T).max() / np.abs(Mm).max()
                 wm = np.linalg.eigvalsh((Mm + Mm.T) / 2)
-                if symM > 1e-12 or wm.min() < -1e-10 * wm.max():
+                if not (symM <= 1e-12) or not (wm.min() >= -1e-10 * wm.max()):
                     res.fail(f"beam M not symmetric PSD timo={timo} dim={bdim}", f"symmetry {symM:.1e}, min eigenvalue ratio {wm.min() / wm.max():.1e}", ident)
                 dofn = 3 if bdim == 2 else 6
                 area = 0.5 * 0.25
                 for cdir in range(bdim):
                     tv = np.zeros((mesh.Nn, dofn)); tv[:, cdir] = 1
                     tot = tv.ravel() @ Mm @ tv.ravel()
-                    if abs(tot - rho * area * L) > 1e-8 * rho * area * L:
+                    if not (abs(tot - rho * area * L) <= 1e-8 * rho * area * L):
                         res.fail(f"beam translational mass timo={timo} dim={bdim}", f"direction {cdir}: t^T M t = {tot}, expected rho A L = {rho * area * L}", ident)
                         break
 
@@ -323,7 +323,7 @@ def main():
             full = lambda v: np.broadcast_to(np.asarray(v, float).reshape(-1, 1) if np.ndim(v) == 1 else np.asarray(v, float), (Ne_, nPg_))  # noqa: E731
             want_ = 0.5 * float((wJ_ * full(rho_) * full(c_)).sum())
             Cd = Cm.toarray()
-            if abs(Cd.sum() - want_) > 1e-9 * want_ or np.abs(Cd - Cd.T).max() > 1e-12 * np.abs(Cd).max():
+            if not (abs(Cd.sum() - want_) <= 1e-9 * want_) or not (np.abs(Cd - Cd.T).max() <= 1e-12 * np.abs(Cd).max()):
                 res.fail(f"capacity total with field coefficients ({name_})", f"entries of C sum to {Cd.sum()}, expected the integral of rho c thickness = {want_} (Ne = {Ne_}, nPg = {nPg_})", ident)
 
     # ---------------- thermal plates out of the (x, y) plane, inclined bars; mirrored meshes after an unrelated probing read ----------------
@@ -347,7 +347,7 @@ def main():
                 Kt_, Ct_, _, _ = st_.Get_K_C_M_F()
                 Cd_ = Ct_.toarray()
                 wt_ = np.linalg.eigvalsh((Cd_ + Cd_.T) / 2)
-                if abs(Cd_.sum() - 1.5 * 3.0 * 2.0 * 0.25) > 1e-9 or wt_.min() <= 0:
+                if not (abs(Cd_.sum() - 1.5 * 3.0 * 2.0 * 0.25) <= 1e-9) or wt_.min() <= 0:
                     res.fail(f"capacity of a plate: {scen}", f"entries of C sum to {Cd_.sum()} (expected rho c area thickness = {1.5 * 3.0 * 2.0 * 0.25}), smallest eigenvalue {wt_.min():.3e}", ident)
                 lin_ = mesh_.coord @ np.array([0.3, -0.2, 0.1])
                 e_lin = float(lin_ @ (Kt_ @ lin_))
@@ -358,13 +358,13 @@ def main():
                 else:
                     gt_ = np.array([g3[0], g3[1], 0.0])
                 want_e = 2.0 * 0.25 * 2.0 * float(gt_ @ gt_)          # k thickness area |grad_t|^2
-                if abs(e_lin - want_e) > 1e-9 * (1 + want_e):
+                if not (abs(e_lin - want_e) <= 1e-9 * (1 + want_e)):
                     res.fail(f"conductivity of a plate: {scen}", f"energy of a linear temperature field = {e_lin}, expected k thickness area |tangential gradient|^2 = {want_e}", ident)
                 if scen != "tilted plate":
                     se_ = Simulations.Elastic(mesh_, Models.Elastic.Isotropic(2, E=10.0, v=0.25, planeStress=True, thickness=0.25))
                     se_.rho = 1.5
                     Md_ = se_.Get_K_C_M_F()[2].toarray()
-                    if abs(Md_.sum() - 2 * 1.5 * 2.0 * 0.25) > 1e-9 or np.linalg.eigvalsh((Md_ + Md_.T) / 2).min() <= 0:
+                    if not (abs(Md_.sum() - 2 * 1.5 * 2.0 * 0.25) <= 1e-9) or np.linalg.eigvalsh((Md_ + Md_.T) / 2).min() <= 0:
                         res.fail(f"mass of a plate: {scen}", f"entries of M sum to {Md_.sum()} (expected 2 rho area thickness = {2 * 1.5 * 2.0 * 0.25})", dict(ident, sim="elastic"))
             except Exception as ex:  # noqa: BLE001
                 res.fail(f"plate scenario raises: {scen}", f"{type(ex).__name__}: {str(ex)[:150]}", ident)
@@ -377,10 +377,83 @@ def main():
             sb_.rho = 1.5
             Cb_ = sb_.Get_K_C_M_F()[1].toarray()
             res.case((et_, "inclined bar"))
-            if abs(Cb_.sum() - 1.5 * 3.0 * 2.0) > 1e-9:
+            if not (abs(Cb_.sum() - 1.5 * 3.0 * 2.0) <= 1e-9):
                 res.fail("capacity of an inclined bar", f"entries of C sum to {Cb_.sum()}, expected rho c length = {1.5 * 3.0 * 2.0} (a bar has no thickness)", dict(elemType=et_, sim="thermal", thickness=0.25))
         except Exception as ex:  # noqa: BLE001
             res.fail("inclined bar scenario raises", f"{type(ex).__name__}: {str(ex)[:120]}", dict(elemType=et_, sim="thermal"))
+
+    # ---------------- meshes with more than 46341 dofs (row * Ndof + column no longer fits in 32 bits): sparse identities only ----------------
+    for sim_kind, et_ in (("thermal", "QUAD4"), ("elastic", "TRI3")):
+        ident = dict(elemType=et_, sim=sim_kind, mesh="large")
+        try:
+            if sim_kind == "thermal":
+                mesh_ = M.mesh_2d(et_, 2.0, 1.0, 0.0063)
+                sl_ = Simulations.Thermal(mesh_, Models.Thermal(2.0, 3.0, thickness=0.5))
+                sl_.rho = 1.5
+                Kl_, Ml_, _, _ = sl_.Get_K_C_M_F()
+                Rl_ = np.ones((mesh_.Nn, 1))
+                want_m = 1.5 * 3.0 * 2.0 * 0.5
+            else:
+                mesh_ = M.mesh_2d(et_, 2.0, 1.0, 0.0098)
+                sl_ = Simulations.Elastic(mesh_, Models.Elastic.Isotropic(2, E=10.0, v=0.25, planeStress=True, thickness=0.5))
+                sl_.rho = 1.5
+                Kl_, _, Ml_, _ = sl_.Get_K_C_M_F()
+                Rl_ = rigid_modes(mesh_.coord, 2)
+                want_m = 2 * 1.5 * 2.0 * 0.5
+            ident.update(Ndof=int(Kl_.shape[0]))
+            res.case((sim_kind, et_, "large"), nontrivial=Kl_.shape[0] > 46341)
+            res.count("large-meshes")
+            if Kl_.shape[0] <= 46341:
+                res.fail("large mesh is not large", f"{Kl_.shape[0]} dofs", ident)
+            for nm_, A_ in (("K", Kl_.tocsr()), ("M", Ml_.tocsr())):
+                asym = abs(A_ - A_.T).max() / abs(A_).max()
+                dmin = A_.diagonal().min()
+                if not (asym <= 1e-12) or not (dmin > 0):
+                    res.fail(f"large mesh: {nm_} not symmetric with a positive diagonal sim={sim_kind}", f"|{nm_} - {nm_}.T| / |{nm_}| = {asym:.2e}, smallest diagonal entry {dmin:.3e} ({Kl_.shape[0]} dofs)", ident)
+            rr_ = np.abs(Kl_ @ Rl_).max() / abs(Kl_).max()
+            if not (rr_ <= 1e-9):
+                res.fail(f"large mesh: rigid / constant modes not in the kernel sim={sim_kind}", f"|K R| / |K| = {rr_:.2e}", ident)
+            if not (abs(Ml_.sum() - want_m) <= 1e-9 * want_m):
+                res.fail(f"large mesh: total mass / capacity sim={sim_kind}", f"entries sum to {Ml_.sum()}, expected {want_m}", ident)
+            # x' K y against the sum over elements (the assembled matrix is the scatter-add of the element matrices)
+            xv_ = np.cos(np.arange(Kl_.shape[0]) * 0.37)
+            yv_ = np.sin(np.arange(Kl_.shape[0]) * 0.11)
+            sym_ = float(xv_ @ (Kl_ @ yv_)) - float(yv_ @ (Kl_ @ xv_))
+            if not (abs(sym_) <= 1e-9 * abs(Kl_).max() * 10):
+                res.fail(f"large mesh: x'Ky != y'Kx sim={sim_kind}", f"difference {sym_:.3e}", ident)
+        except Exception as ex:  # noqa: BLE001
+            res.fail("large mesh scenario raises", f"{type(ex).__name__}: {str(ex)[:150]}", ident)
+
+    # ---------------- a mesh and its copy: study on A, copy and stretch, study on the copy, back to A ----------------
+    for et_ in (["TRI3", "QUAD8"] if not thorough else ["TRI3", "TRI6", "QUAD4", "QUAD8"]):
+        ident = dict(elemType=et_, scenario="mesh A studied, A.copy() stretched and studied, A studied again")
+        res.case((et_, "copy"))
+        res.count("mesh-copies")
+        try:
+            mA_ = M.mesh_2d(et_, 2.0, 1.0, 0.7)
+            lawc_ = lambda: Models.Elastic.Isotropic(2, E=10.0, v=0.25, planeStress=True, thickness=0.5)  # noqa: E731
+            s0_ = Simulations.Elastic(mA_, lawc_())
+            s0_.rho = 1.5
+            s0_.Get_K_C_M_F()
+            _ = mA_.area
+            mB_ = mA_.copy()
+            mB_.Rotate(30.0, (0.0, 0.0, 0.0), (0, 0, 1))
+            Xb_ = mB_.coord.copy()
+            Xb_[:, 0] *= 1.5
+            Xb_[:, 1] *= 0.8
+            mB_.coord = Xb_
+            for nm_, m_, area_ in (("copy", mB_, 2.0 * 1.5 * 0.8), ("original", mA_, 2.0)):
+                sc_ = Simulations.Elastic(m_, lawc_())
+                sc_.rho = 1.5
+                Kc_, _, Mc_, _ = sc_.Get_K_C_M_F()
+                Rc_ = rigid_modes(m_.coord, 2)
+                rr_ = np.abs(Kc_ @ Rc_).max() / abs(Kc_).max()
+                if not (rr_ <= 1e-9):
+                    res.fail(f"mesh copy: rigid modes of the {nm_} not in the kernel", f"|K R| / |K| = {rr_:.2e}", ident)
+                if not (abs(Mc_.sum() - 2 * 1.5 * area_ * 0.5) <= 1e-9) or not (abs(m_.area - area_) <= 1e-9):
+                    res.fail(f"mesh copy: mass of the {nm_}", f"entries of M sum to {Mc_.sum()} (expected {2 * 1.5 * area_ * 0.5}), mesh.area = {m_.area} (expected {area_})", ident)
+        except Exception as ex:  # noqa: BLE001
+            res.fail("mesh copy scenario raises", f"{type(ex).__name__}: {str(ex)[:150]}", ident)
 
     answers = driver.ask(lines)
     if answers is None:
@@ -393,7 +466,7 @@ def main():
             except Exception:  # noqa: BLE001
                 res.disagree("element-matrix", dict(ident, model=ans[:80]))
                 continue
-            if np.abs(model - real).max() > 1e-10 * (1 + np.abs(real).max()):
+            if not (np.abs(model - real).max() <= 1e-10 * (1 + np.abs(real).max())):
                 res.disagree("element-matrix", dict(ident, maxdiff=float(np.abs(model - real).max())))
     res.search_note = "K / M of every sampled mesh are symmetric, (semi-)definite with the expected kernel and totals"
     res.write("affinely distorted meshes (>= 2 elements) of every 2D / 3D element type: elasticity (isotropic or rotated orthotropic law, random thickness / density) and heat conduction; "
